@@ -965,6 +965,10 @@ def coq_mg_cases(hs_cases, hs_results, limit_n, max_cases):
             _, As = mg_oracle(An, np.array([float(v) for v in f]), Pn, run['lv_inds'], run['smoother'], run['smooth_steps'])
             kappa = max([1.0] + [np.linalg.cond(As[lv][np.ix_(I, I)]) for lv, I in enumerate(run['lv_inds']) if len(I)])
             for which in ('x_rand', 'xs'):
+                # exact rational arithmetic from a random start grows with every dependent row update (measured:
+                # > 100 s per cycle at 16 dofs); random starts only on the smallest spaces, the fixed point on all
+                if which == 'x_rand' and (n > 9 or len(run['lv_inds']) > 2 and n > 7):
+                    continue
                 x = [fh(h) for h in mg[which]]
                 impl = [fh(h) for h in run['from_rand' if which == 'x_rand' else 'from_exact']]
                 scale = max([1.0] + [abs(float(v)) for v in x] + [abs(float(v)) for v in impl] + [abs(fl(h)) for h in mg['xs']])
